@@ -6,12 +6,13 @@ OUTCOMES = ["C", "C", "C", "NAN", "INV", "FAIL"]
 
 
 def run_schedule(o, R, steps=60, ntuners=None, score_of=None, outcomes=OUTCOMES, on_create=None, on_end=None,
-                 discover=None, fair_finish=False, sign=1.0, best_every=0.0):
+                 discover=None, fair_finish=False, sign=1.0, best_every=0.0, restart_at=None, restart=None):
     """Returns the trace: list of tuples. `score_of(R, trial)` gives the objective reported for a
     COMPLETED outcome (default: small random numbers); `sign` multiplies it (direction symmetry);
     `discover(R, trial)` may declare new hyperparameters on the trial before it ends;
     `fair_finish`: after `steps` requests, end everything still held and keep asking until all tuners
-    are told STOPPED (bounded)."""
+    are told STOPPED (bounded); `restart_at` = k with `restart(o)` -> new oracle: before the k-th request the process is
+    replaced by a fresh one that reloaded the project (all workers start over: what they held is forgotten)."""
     tun = [f"w{i}" for i in range(ntuners or R.randint(1, 4))]
     hold, trace, stopped = {}, [], set()
     aborted = False
@@ -55,7 +56,12 @@ def run_schedule(o, R, steps=60, ntuners=None, score_of=None, outcomes=OUTCOMES,
             on_create(o, w, t)
         return t
 
-    for _ in range(steps):
+    for k_ in range(steps):
+        if restart is not None and k_ == restart_at:
+            o = restart(o)
+            trace.append(("restart", len(hold)))
+            hold.clear()
+            stopped.clear()
         if aborted or (len(stopped) == len(tun) and not hold):
             break
         w = R.choice(tun)
